@@ -9,10 +9,16 @@
 (*   cmd       "clone" | "compress"                                        *)
 (*   out       "absent" | "regular" | "bd_small" | "bd_equal" | "bd_large" *)
 (*             (block device smaller / equal / larger than the source)     *)
+(*             | "bd_tail": smaller than the source, but not smaller than  *)
+(*             the end of the last chunk that occurs for the first time    *)
+(*             (the source ends with a repeated chunk)                     *)
 (*   force, inplace   --force-create, --seed-output                        *)
 (*   arch      "valid" | "invalid"   (header fails validation)             *)
 (*   pin       "none" | "match" | "mismatch"   (--verify-header)           *)
 (*   nseeds, stdin_seed, verify_out, transport  ("local" | "http")         *)
+(*   stale_tmp "none" | "longer" | "shorter": a file already sits at the   *)
+(*             path of compress's temporary chunk file (left by an         *)
+(*             interrupted run), longer / shorter than the data to come    *)
 (*                                                                         *)
 (* `touched` records what happens to which file role:                      *)
 (*   <<role, how>>, role in output / archive / seed / temp / input,        *)
@@ -26,7 +32,8 @@ EXTENDS Integers, Sequences, FiniteSets, TLC
 VARIABLES m, pc, touched, exit, outstate
 vars == <<m, pc, touched, exit, outstate>>
 
-IsBd(mm) == mm.out \in {"bd_small", "bd_equal", "bd_large"}
+IsBd(mm) == mm.out \in {"bd_small", "bd_tail", "bd_equal", "bd_large"}
+TooSmall(mm) == mm.out \in {"bd_small", "bd_tail"}
 Exists(mm) == mm.out # "absent"
 
 \* ---- pure predictions, shared with CliTrace
@@ -36,7 +43,7 @@ Refusal(mm) ==
   ELSE IF mm.arch = "invalid" THEN "archive"
   ELSE IF mm.pin = "mismatch" THEN "pin"
   ELSE IF Exists(mm) /\ ~mm.force /\ ~mm.inplace THEN "exists"
-  ELSE IF mm.out = "bd_small" THEN "bd_small"
+  ELSE IF TooSmall(mm) THEN "bd_small"
   ELSE "none"
 \* is the output opened at all, and with which flags
 OutputOpened(mm) == Refusal(mm) \notin {"archive", "pin"}
@@ -66,7 +73,7 @@ OpenOutput ==
           /\ UNCHANGED exit
   /\ UNCHANGED m
 BdCheck == /\ pc = "bd_check"
-           /\ IF m.out = "bd_small" THEN Finish(1) ELSE pc' = "work" /\ UNCHANGED exit
+           /\ IF TooSmall(m) THEN Finish(1) ELSE pc' = "work" /\ UNCHANGED exit
            /\ UNCHANGED <<m, touched, outstate>>
 \* scan (in place), reorder, seeds, fetch: the output is written; seeds and stdin are only read
 Work == /\ pc = "work"
@@ -83,7 +90,7 @@ VerifyFailsO1(mm) == mm.cmd = "clone" /\ mm.out = "bd_large" /\ mm.verify_out
 Verify == /\ pc = "verify" /\ Finish(IF VerifyFailsO1(m) THEN 1 ELSE 0) /\ UNCHANGED <<m, touched, outstate>>
 \* compress: temp chunk file created (truncating), filled, copied into the archive, removed
 OpenTemp == /\ pc = "open_temp" /\ Touch("input", "read_open") /\ pc' = "pipeline" /\ UNCHANGED <<m, exit, outstate>>
-Pipeline == /\ pc = "pipeline" /\ touched' = touched \cup {<<"temp", "create">>, <<"temp", "write">>}
+Pipeline == /\ pc = "pipeline" /\ touched' = touched \cup {<<"temp", IF m.stale_tmp = "none" THEN "create" ELSE "trunc_open">>, <<"temp", "write">>}
             /\ pc' = "write_archive" /\ UNCHANGED <<m, exit, outstate>>
 WriteArchive == /\ pc = "write_archive" /\ touched' = touched \cup {<<"output", "write">>, <<"temp", "read_open">>}
                 /\ outstate' = "archive" /\ pc' = "unlink_temp" /\ UNCHANGED <<m, exit>>
@@ -107,7 +114,7 @@ CloneNeverTruncatesOnOpen == m.cmd = "clone" => <<"output", "trunc_open">> \noti
 CloneTouchesOnlyOutput == m.cmd = "clone" => \A t \in touched : (t[2] \in WriteHows \cup {"rw_open"} => t[1] = "output") /\ t[2] \notin {"unlink", "rename"}
 \* C16: a successful compress leaves exactly the archive: the temp file it created is removed
 CompressLeavesOnlyArchive == (m.cmd = "compress" /\ Ended /\ exit = 0) =>
-   /\ <<"temp", "create">> \in touched => <<"temp", "unlink">> \in touched
+   /\ (<<"temp", "create">> \in touched \/ <<"temp", "trunc_open">> \in touched) => <<"temp", "unlink">> \in touched
    /\ \A t \in touched : t[2] \in WriteHows => t[1] \in {"output", "temp"}
 SuccessMeansSource == (m.cmd = "clone" /\ Ended /\ Refusal(m) = "none") => outstate = IF IsBd(m) THEN "source_prefix" ELSE "source"
 =============================================================================
